@@ -138,6 +138,9 @@ def gen(tier, seed):
         # everything on one line
         kind, txt = unk_item(rng, 0, [d.name for d in DECLS])
         variants.append([kind, ' '.join(render(items, {((), rng.randint(0, len(items))): txt})) + '\n', False])
+        # the unknown item is the very last thing in the input, no newline after it
+        kind, txt = unk_item(rng, 0, [d.name for d in DECLS])
+        variants.append([kind, '\n'.join(render(items, {((), len(items)): txt})), False])
         yield {'kind': 'ins', 'base': base, 'variants': variants}
     for depth in (100, 1000, 10000, 100000):
         for shape in ('plain', 'titled', 'mixed'):
